@@ -879,6 +879,23 @@ class Explorer:
 # interpreted functions / classes
 
 
+EXECUTED = set()  # (file, qualified name) of every function of the tree under verification whose body was interpreted in this process
+
+
+def executed_functions():
+    """source spans and hashes of the functions whose bodies were executed from the real source (callers' obligations cover them inline)"""
+    from .common import func_source_info
+    out = []
+    for rp, qn in sorted(EXECUTED):
+        try:
+            info = func_source_info(rp, qn)
+            info["mode"] = "body executed from source"
+            out.append(info)
+        except Exception:
+            pass
+    return out
+
+
 def _is_harness_obj(x):
     """symbolic stand-ins defined by the verifier (engine/contracts/props), excluding the interpreter's own program-level values"""
     t = type(x)
@@ -1160,6 +1177,9 @@ class Interp:
         return bound
 
     def run_func(self, f, args, kwargs, top=False):
+        rp = getattr(f.module, "relpath", None)
+        if rp and "<" not in f.qualname:
+            EXECUTED.add((rp, f.qualname))
         bound = self.bind(f, args, kwargs)
         env = Env(f.closure)
         env.vars.update(bound)
@@ -1681,7 +1701,13 @@ class Interp:
             elems = [(x != 0) if isinstance(x, SR) else (x if isinstance(x, SB) else bool(x)) for x in base.reshape(-1)]
             fn = self.builtins["any" if attr == "any" else "all"]
             return lambda axis=None: fn(elems)
-        return getattr(base, attr)
+        try:
+            return getattr(base, attr)
+        except AttributeError as e:
+            # a stand-in of the verifier that does not model this member: a limit of the executor, not an AttributeError of the program
+            if _is_harness_obj(base):
+                raise Unsupported("harness error: %s does not model .%s" % (type(base).__name__, attr))
+            raise
 
     def setattr(self, base, attr, v):
         if isinstance(base, Obj):
